@@ -62,3 +62,35 @@ Theorem grow_is_assembled k A b p old new :
   grow_assembled k A b p new (round_up_to (l_size new) (k_malign k))
     ((l_align new <=? l_align old) && (cur_ptr k b =? p)) (l_size old) (l_align old) (l_size old) (l_size old).
 Proof. reflexivity. Qed.
+
+(* ---------- alloc_try_with / try_alloc_try_with ---------- *)
+(* entry: what the pending record keeps is what the source saves before reserving the slot
+   (src_try_with_entry_ok: the current footer's address and its finger) *)
+Theorem tw_begin_saves k A b l p :
+  o_res (snd (tw_begin k A b l)) = ROk p ->
+  exists t, tws (fst (tw_begin k A b l)) = t :: tws (fst (try_alloc k A b l)) /\
+            tw_foot t = cur_foot k b /\ tw_ptr t = cur_ptr k b /\ tw_res t = p.
+Proof.
+  unfold tw_begin. destruct (o_res (snd (try_alloc k A b l))) eqn:E; intros H;
+    try (rewrite E in H; discriminate H).
+  cbn [fst snd] in *. rewrite E in H. injection H as <-.
+  eexists. split; [reflexivity|]. cbn [tw_foot tw_ptr tw_res]. repeat split.
+Qed.
+
+(* exit with Err: the two tests and the two rewind targets are parameters *)
+Definition tw_end_err_assembled (k : cfg) (b0 : bump) (is_last same_chunk : bool) (back_same back_new : N) : bump * out :=
+  if is_last then
+    if same_chunk then (set_ptr b0 back_same, mkOut RErr [] (stores_of k b0) [] [] [])
+    else (set_ptr b0 back_new, mkOut RErr [] (stores_of k b0) [] [] [])
+  else (b0, out_of RErr).
+
+Theorem tw_end_is_assembled k b t rest :
+  tws b = t :: rest ->
+  let b0 := set_tws b rest in
+  tw_end k b false =
+  tw_end_err_assembled k b0 (cur_ptr k b0 =? tw_res t) (cur_foot k b0 =? tw_foot t)
+                       (tw_ptr t) (rdown (cur_foot k b0) (k_malign k)) /\
+  tw_end k b true = (b0, out_of (ROk (tw_res t))).
+Proof.
+  intros H b0. unfold tw_end, tw_end_err_assembled. rewrite H. cbn [negb]. split; reflexivity.
+Qed.
